@@ -1237,7 +1237,11 @@ def check_comparator(res, rule, unit, name, file, nan_strict=False):
 # ------------------------------------------------------------------------------------------------------------ run
 
 def run(res, tier):
-    unit = engine.unit(DRV)
+    from .. import norm
+    # private procedures (static void helpers with one caller, address never taken, not macro-generated) are analysed inside
+    # their caller: factoring a repeated enqueue / parameter sequence out of an anchor function does not hide it
+    unit = norm.ViewUnit(engine.unit(DRV), keep=ANCHORS, procedures_only=False)
+    res.extra["private_helpers_inlined"] = sorted(unit.private)
     for a in ANCHORS:
         if a not in unit.funcs:
             raise AnalysisError(f"anchor {a} missing in {DRV}")
